@@ -203,9 +203,20 @@ func (c *Controller) HandleVisitor(m *msg.NatHoleVisitor, transporter transport.
 		delete(c.sessions, sid)
 	}()
 
+	// The proxy may be closed after the lookup above, then nobody receives from sidCh any more.
+	notified := false
 	if err := errors.PanicToError(func() {
-		clientCfg.sidCh <- sid
+		select {
+		case clientCfg.sidCh <- sid:
+			notified = true
+		case <-time.After(time.Duration(NatHoleTimeout) * time.Second):
+		}
 	}); err != nil {
+		return
+	}
+	if !notified {
+		log.Debugf("notify xtcp server [%s] timeout, sid [%s]", m.ProxyName, sid)
+		_ = transporter.Send(c.GenNatHoleResponse(m.TransactionID, nil, fmt.Sprintf("notify xtcp server [%s] timeout", m.ProxyName)))
 		return
 	}
 
